@@ -150,6 +150,21 @@ where
         if (back.as_ptr() as usize, back.len()) != (base, count) {
             return Err(format!("into_chunks gives (addr +{}, len {}), expected (+0, {count})", (back.as_ptr() as usize).wrapping_sub(base), back.len()));
         }
+        // slice_from_chunks on a chunk slice that did not come out of chunks_from_slice (the only way to have chunks of length 0)
+        let flat: &[E] = GA::<E, N<K>>::slice_from_chunks(g);
+        if (flat.as_ptr() as usize, flat.len()) != (base, count * K) {
+            return Err(format!("slice_from_chunks of {count} arrays of length {K} gives (addr +{}, len {}), expected (+0, {})", (flat.as_ptr() as usize).wrapping_sub(base), flat.len(), count * K));
+        }
+        if ids_of(flat) != ids {
+            return Err("slice_from_chunks reorders elements".into());
+        }
+    }
+    {
+        let g: &mut [GA<E, N<K>>] = GA::<E, N<K>>::from_chunks_mut(&mut v);
+        let flat: &mut [E] = GA::<E, N<K>>::slice_from_chunks_mut(g);
+        if (flat.as_ptr() as usize, flat.len()) != (base, count * K) {
+            return Err(format!("slice_from_chunks_mut of {count} arrays of length {K} gives (addr +{}, len {}), expected (+0, {})", (flat.as_ptr() as usize).wrapping_sub(base), flat.len(), count * K));
+        }
     }
     {
         let g: &mut [GA<E, N<K>>] = GA::<E, N<K>>::from_chunks_mut(&mut v);
